@@ -63,9 +63,20 @@ THEOREMS = [
     dict(name="Snow.C13.complete_or_raise_fresh_fixed_0D", clause="0D, run() as in /repo (SnowObj.runFixed), any earlier history of the object: complete results or every accessor raises", strength="full"),
     dict(name="Snow.C13.complete_or_raise_fresh_fixed_1D", clause="1D, run() as in /repo (SnowObj.runFixed), any earlier history of the object: complete results or every accessor raises", strength="full"),
     dict(name="Snow.C13.published_solid_rows_2D", clause="2D: every published solidification row holds iceFrac of its step's field, and that step's 90 % test used sigmaOf of exactly these entries", strength="full"),
-    dict(name="Snow.C13.hlen_run2D", clause="2D: tempProfile(dt) has exactly Nt_exp samples (discharges the side hypothesis of the 2D buffer/alignment theorems for the run itself)", strength="full"),
-    dict(name="Snow.C13.history_aligned_run2D", clause="2D: history alignment for S2D.run on (tempProfile(dt), Nt_exp) without side hypothesis", strength="full"),
-    dict(name="Snow.C13.time_nondecreasing_run2D", clause="2D: non-decreasing time axis for S2D.run on (tempProfile(dt), Nt_exp) without side hypothesis", strength="full"),
+    dict(name="Snow.C13.hlen_run2D", clause="2D: len(tempProfile(dt)) <= Nt_exp - the form the buffer/alignment theorems need (equality: len_run2D)", strength="full"),
+    dict(name="Snow.C13.history_aligned_run2D", clause="2D: history alignment for the run _run_2D makes (T0C := oc.start, profile := tempProfile(dt), Nt_exp := ceil(t_tot/dt)+1), no side hypothesis", strength="full"),
+    dict(name="Snow.C13.time_nondecreasing_run2D", clause="2D: non-decreasing time axis for the run _run_2D makes (T0C := oc.start, tempProfile(dt), Nt_exp), given 0 <= dt (discharged in time_nondecreasing_run2D_code)", strength="full"),
+    dict(name="Snow.C13.complete_or_raise_obj_2D", clause="2D, run() as in /repo, any earlier history of the object: results and histories of THIS run, or the run raised and every accessor raises", strength="full"),
+    dict(name="Snow.C13.study_async_ok", clause="asynchronous Nrep>1 study that completed: results = table of all repetitions, history accessors return None (complete result of such a study)", strength="full"),
+    dict(name="Snow.C13.study_async_rows", clause="... with exactly Nrep rows", strength="full"),
+    dict(name="Snow.C13.study_async_raises", clause="asynchronous study in which a repetition raised: run() raises and every accessor raises (no table with missing seeds)", strength="full"),
+    dict(name="Snow.C13.asyncExc_isSome_iff", clause="an asynchronous study raises iff some repetition raised", strength="full"),
+    dict(name="Snow.C13.len_run2D", clause="2D: tempProfile(dt) has exactly Nt_exp samples", strength="full"),
+    dict(name="Snow.C13.dt_grid2D_nonneg", clause="2D: the code's dt is non-negative (alpha_max >= 0)", strength="full"),
+    dict(name="Snow.C13.time_nondecreasing_run2D_code", clause="2D: non-decreasing time axis for the run _run_2D makes (T0C := oc.start), only hypothesis alpha_max >= 0", strength="full"),
+    dict(name="Snow.C13.times_within_2D_code", clause="2D: all times within the process, 0 <= dt discharged", strength="full"),
+    dict(name="Snow.C13.times_within_1D_code", clause="1D: all times within the process, 0 <= dt discharged (alpha_max >= 0)", strength="full"),
+    dict(name="Snow.C13.time_nondecreasing_run1D", clause="1D: non-decreasing time axis for run1D p itself, only hypothesis alpha_max >= 0", strength="full"),
 ]
 TRUSTED = [
     "Lean 4.33 kernel; axioms per theorem listed under coverage.axioms",
@@ -102,7 +113,7 @@ def regenerate():
     gentie.regenerate("0D")
     gentie.regenerate("1D")
 
-LEVEL_TEXT = ('Lean 4 theorems about executable models of _run_0D, _run_1D and of the object fields across successive run() calls (exact real arithmetic), tied to /repo by a differential check (all four arrays of single runs; exception class, results and array lengths of object histories). Proved in full for 0D and 1D: complete result or exception (one run; fresh object: every accessor raises AssertionError after a failed run); t_fr = t_nuc + t_sol; t_sol = dt * (first solidification step with frozen fraction >= 0.9), the fraction being computed from the field saved for that step; all times within the process; number of history rows (1D: i_save_end + 1 + (i_save - 1); that the four Python arrays have equal length is by construction of the 1D model, which keeps one array of rows, and is checked on every real run; 0D: four arrays of n entries, proved), time = dt * step, shelfTemp = programme[step], rows in step order hence time non-decreasing; every in-loop buffer write in range, IndexError exactly when the extra post-nucleation row meets a full cooling buffer (explicit exception branch, reproduced on the real code). Refuted for a REUSED object: a run failing in the solidification stage after a completed one leaves new statistics with t_sol = None beside the old arrays (state-machine theorem + concrete model witness, replayed: K6); with the proposed repair of run() (fixes/K6.diff) the clause is proved for every object history. The single-run clauses are proved for the 2D model as well (S2D.run returns a complete Result or an exception class; its loops are identified with the generic folds); real 2D runs are compared with it (exception class, results row, array lengths, time axis, shelf, thinned fields). PARTIAL: the object state machine (reused object) is stated for 0D/1D run outputs; for 2D the no-partial-data clause rests on complete_or_raise_2D together with the repaired run() (earlier outputs cleared), checked on real 2D runs. The per-step formulas of the 0D and 1D hand models are additionally tied by REGENERATION: harness/translate.py extracts them from /repo on every run and SnowProofs/Props/GenTie proves the generated text equal to the hand model (a changed formula breaks that proof).')
+LEVEL_TEXT = ('Lean 4 theorems about executable models of _run_0D, _run_1D and of the object fields across successive run() calls (exact real arithmetic), tied to /repo by a differential check (all four arrays of single runs; exception class, results and array lengths of object histories). Proved in full for 0D and 1D: complete result or exception (one run; fresh object: every accessor raises AssertionError after a failed run); t_fr = t_nuc + t_sol; t_sol = dt * (first solidification step with frozen fraction >= 0.9), the fraction being computed from the field saved for that step; all times within the process; number of history rows (1D: i_save_end + 1 + (i_save - 1); that the four Python arrays have equal length is by construction of the 1D model, which keeps one array of rows, and is checked on every real run; 0D: four arrays of n entries, proved), time = dt * step, shelfTemp = programme[step], rows in step order hence time non-decreasing; every in-loop buffer write in range, IndexError exactly when the extra post-nucleation row meets a full cooling buffer (explicit exception branch, reproduced on the real code). Refuted for a REUSED object: a run failing in the solidification stage after a completed one leaves new statistics with t_sol = None beside the old arrays (state-machine theorem + concrete model witness, replayed: K6); with the proposed repair of run() (fixes/K6.diff) the clause is proved for every object history. The single-run clauses are proved for the 2D model as well (S2D.run returns a complete Result or an exception class; its loops are identified with the generic folds); real 2D runs are compared with it (exception class, results row, array lengths, time axis, shelf, thinned fields). The object state machine (run() as repaired: outputs cleared at the start and on an exception) is stated for 0D, 1D and 2D outputs (complete_or_raise_fresh_fixed_0D/1D, complete_or_raise_obj_2D), for sequential studies (study_fixed_*) and for asynchronous studies (study_async_*: a completed asynchronous study shows the table and no histories; one that raised shows nothing). The per-step formulas of the 0D and 1D hand models are additionally tied by REGENERATION: harness/translate.py extracts them from /repo on every run and SnowProofs/Props/GenTie proves the generated text equal to the hand model (a changed formula breaks that proof).')
 
 
 ARRS = ("time", "shelfTemp", "temp", "iceMassFraction")
